@@ -1,2 +1,79 @@
-From HS Require Import Base.Prelude Model.Json.
-Theorem C02_placeholder : True. Proof. exact I. Qed.
+(* C02 - JSON round trip.  Statements only; proofs in Proofs/JsonP.v.
+   For every scalar kind: what the writer model emits is read back by the
+   reader model (the cascade of parse_embedded_scalar, one matcher per regex,
+   in the order of the source) as the same kind with the same content.
+   Numbers travel as the exact '%f' text: the six-decimal statement about
+   floats is CPython's ('%f' % x has the shape f6_shape, float() inverts it up
+   to six decimals) and is sampled by the harness.
+   PARTIAL: the induction through lists, dicts and whole grids (jparse_grid of
+   jdump_grid) is not proved; it is covered by the correspondence + search. *)
+From Coq Require Import String.
+From HS Require Import Base.Prelude Gen.JsonData Model.Value Model.Json Proofs.JsonP.
+Open Scope N_scope.
+
+(* text kinds: ANY payload, no hypothesis *)
+Theorem C02_str : forall pre3 s, jparse_str pre3 (115 :: 58 :: s) = Ok (VStr s).
+Proof. exact rt_str. Qed.
+Theorem C02_uri : forall pre3 s, jparse_str pre3 (117 :: 58 :: s) = Ok (VUri s).
+Proof. exact rt_uri. Qed.
+Theorem C02_bin : forall pre3 s, jparse_str pre3 (98 :: 58 :: s) = Ok (VBin s).
+Proof. exact rt_bin. Qed.
+
+(* references: a non-empty name of reference characters; the display name is ANY text *)
+Theorem C02_ref : forall pre3 n, n <> [] -> forallb is_ref_char n = true ->
+  jparse_str pre3 (114 :: 58 :: n) = Ok (VRef n None).
+Proof. exact rt_ref_plain. Qed.
+Theorem C02_ref_dis : forall pre3 n d, n <> [] -> forallb is_ref_char n = true ->
+  jparse_str pre3 (114 :: 58 :: n ++ 32 :: d) = Ok (VRef n (Some d)).
+Proof. exact rt_ref_dis. Qed.
+
+(* XStr: a type name without colon; the payload is ANY text (colons included) *)
+Theorem C02_xstr : forall en tx, mem_colon en = false ->
+  jparse_str false (120 :: 58 :: en ++ 58 :: tx) = Ok (VXStr en tx).
+Proof. exact rt_xstr. Qed.
+
+(* numbers and quantities: exactly the token written, and the unit (ANY text) *)
+Theorem C02_num : forall pre3 tok u, f6_shape tok ->
+  jparse_str pre3 (110 :: 58 :: tok ++ match u with Some x => 32 :: x | None => [] end)
+  = Ok (VNum NkFin tok tok u).
+Proof. exact rt_num. Qed.
+Theorem C02_nonfinite : forall pre3,
+  jparse_str pre3 (s_ "n:INF") = Ok (VNum NkInf [] [] None) /\
+  jparse_str pre3 (s_ "n:-INF") = Ok (VNum NkNegInf [] [] None) /\
+  jparse_str pre3 (s_ "n:NaN") = Ok (VNum NkNaN [] [] None).
+Proof. exact rt_nonfinite. Qed.
+
+Theorem C02_coord : forall pre3 la lo, f6_shape la -> f6_shape lo ->
+  jparse_str pre3 (99 :: 58 :: la ++ 44 :: lo) = Ok (VCoord la lo).
+Proof. exact rt_coord. Qed.
+
+(* dates, times: exact *)
+Theorem C02_date : forall pre3 y m d, valid_date y m d = true ->
+  jparse_str pre3 (100 :: 58 :: iso_date y m d) = Ok (VDate y m d).
+Proof. exact rt_date. Qed.
+Theorem C02_time : forall pre3 h mi s us, h <= 23 -> mi <= 59 -> s <= 59 -> us < 1000000 ->
+  jparse_str pre3 (104 :: 58 :: iso_time h mi s us) = Ok (VTime h mi s us).
+Proof. exact rt_time. Qed.
+
+(* date-times: the reader hands iso8601.parse_date exactly the text isoformat() produced,
+   and the zone name written *)
+Theorem C02_datetime : forall pre3 y m d h mi s us off name,
+  y < 10000 -> m < 100 -> d < 100 -> h < 100 -> mi < 100 -> s < 100 -> us < 1000000 ->
+  whole_minutes off -> name <> [] -> forallb is_tzname_char name = true ->
+  jparse_str pre3 (116 :: 58 :: iso_datetime y m d h mi s us off ++ 32 :: name)
+  = Ok (VDateTimeRaw (iso_datetime y m d h mi s us off) (Some name)).
+Proof. exact rt_datetime. Qed.
+
+(* singletons; Remove: 2.0 grids use x:, 3.0 grids -:, both read back as Remove *)
+Theorem C02_marker : forall pre3, jparse_str pre3 marker_str = Ok VMarker.
+Proof. exact rt_marker. Qed.
+Theorem C02_na : jparse_str false na_str = Ok VNA /\ jparse_str true na_str = Raise ValueError.
+Proof. exact rt_na. Qed.
+Theorem C02_remove_spelling : forall pre3,
+  jdump_scalar pre3 VRemove = Ok (JStr (if pre3 then remove2_str else remove3_str)) /\
+  jparse_str pre3 remove2_str = Ok VRemove /\ jparse_str pre3 remove3_str = Ok VRemove.
+Proof. intros. split; [reflexivity | apply rt_remove]. Qed.
+
+(* non-vacuity: a value whose '%f' token satisfies the shape *)
+Example C02_f6_example : f6_shape [45; 49; 50; 46; 53; 48; 48; 48; 48; 48].   (* -12.500000 *)
+Proof. exists true, [49; 50], [53; 48; 48; 48; 48; 48]. repeat split; try reflexivity; discriminate. Qed.
